@@ -511,6 +511,25 @@ func runHistory(base string, h *hist.History, certs *hist.Certs, nfresh int, fac
 			// let the reload queue run
 			time.Sleep(time.Duration(h.Opt.ReloadInterval)*time.Millisecond + 30*time.Millisecond)
 		}
+		if h.Opt.ReloadInterval > 0 {
+			// on a loaded machine the queued reload may run later than the interval: nothing else is going on, so the running
+			// table can only change through that reload -- wait for it (bounded) before the state is recorded
+			for k := 0; k < 150; k++ {
+				run := w.Sim.RunningCopy()
+				disk, derr := hasim.LoadRuntime(w.Opt.CfgDir())
+				if derr != nil || run == nil {
+					break
+				}
+				a, _ := json.Marshal(run.Project())
+				b, _ := json.Marshal(disk.Project())
+				ac, _ := json.Marshal(runCerts(run))
+				bc, _ := json.Marshal(runCerts(disk))
+				if string(a) == string(b) && string(ac) == string(bc) {
+					break
+				}
+				time.Sleep(20 * time.Millisecond)
+			}
+		}
 		r1, _, cmds := w.Sim.Snapshot()
 		inc, incx, incFacts, err := observeX(w)
 		if err != nil {
